@@ -370,8 +370,8 @@ def _plain(v):
         return tuple(_plain(x) for x in v)
     if isinstance(v, bool):
         return int(v)
-    if isinstance(v, (int, Fraction)):
-        return str(Fraction(v))
+    if isinstance(v, (int, Fraction, float, complex)):
+        return _canon(v)
     return repr(v)
 
 
@@ -399,6 +399,27 @@ def all_names(e, acc=None):
 def evaluate(o, names, point):
     """Outcome of dagrt's EvaluationMapper at one point: ("val", canonical) | ("exc", class)."""
     from dagrt.expression import EvaluationMapper
+
+    class Guarded(EvaluationMapper):
+        """dagrt's mapper; powers that would not terminate / not print are cut off on both sides alike"""
+
+        def map_quotient(self, expr):
+            n, d = self.rec(expr.numerator), self.rec(expr.denominator)
+            if isinstance(n, int) and isinstance(d, int):
+                return Fraction(int(n), int(d))            # exact instead of a float (ZeroDivisionError alike)
+            return n / d
+
+        def map_power(self, expr):
+            b, x = self.rec(expr.base), self.rec(expr.exponent)
+            if isinstance(b, int) and isinstance(x, int) and x < 0:
+                b = Fraction(int(b))                       # exact instead of a float
+            if isinstance(x, (int, Fraction)) and not isinstance(x, bool) and abs(x) > 48:
+                raise OverflowError("exponent guard")
+            if isinstance(b, (int, Fraction)) and not isinstance(b, bool) and \
+                    max(abs(Fraction(b).numerator), Fraction(b).denominator) > 10 ** 40:
+                raise OverflowError("base guard")
+            return b ** x
+
     rng = random.Random(point)
     ctx = {n: FV(rng.randint(-3, 3)) for n in sorted(names)}
     funcs = make_functions(sorted(names), point)
@@ -408,21 +429,45 @@ def evaluate(o, names, point):
     try:
         with warnings.catch_warnings():
             warnings.simplefilter("ignore")
-            v = EvaluationMapper(ctx, funcs)(o)
+            v = Guarded(ctx, funcs)(o)
     except RecursionError:
         raise
     except Exception as ex:  # noqa: BLE001
         return ("exc", type(ex).__name__)
-    return ("val", _canon(v))
+    return ("val", _canon(v), _approx(v))
+
+
+def _approx(v):
+    """a float approximation, used only to compare outcomes that involve Python floats (int / int)"""
+    if isinstance(v, (bool, int, Fraction, float)):
+        try:
+            return float(v)
+        except (OverflowError, ValueError):
+            return None
+    return None
+
+
+def same_outcome(a, b):
+    if a[:2] == b[:2]:
+        return True
+    if a[0] == b[0] == "val" and len(a) > 2 and len(b) > 2 and a[2] is not None and b[2] is not None \
+            and (a[1].startswith("float:") or b[1].startswith("float:")):
+        import math
+        return math.isclose(a[2], b[2], rel_tol=1e-6, abs_tol=1e-9)     # -0.0 == 0.0, rounding of re-associated floats
+    return False
 
 
 def _canon(v):
     if isinstance(v, bool):
         return str(Fraction(int(v)))
     if isinstance(v, (int, Fraction)):
-        return str(Fraction(v))
+        f = Fraction(v)
+        if max(abs(f.numerator), f.denominator).bit_length() > 4000:
+            return "big:%d:%d/%d:%d" % (f.numerator.bit_length(), f.numerator % 1000000007,
+                                        f.denominator.bit_length(), f.denominator % 1000000007)
+        return str(f)
     if isinstance(v, float):
-        return "float:%.9g" % v
+        return "float:%.6g" % (v + 0.0 if v != 0 else 0.0)      # -0.0 == 0.0; rounding noise of re-association
     if isinstance(v, complex):
         return "complex:%.9g,%.9g" % (v.real, v.imag)
     if isinstance(v, tuple):
@@ -472,9 +517,9 @@ def oracle(e, out):
     if out["vars2"] != out["vars"]:
         return {"kind": "variables-differ", "text": out["str"], "vars": out["vars"], "vars_of_reparsed": out["vars2"]}
     for pt, (a, b) in enumerate(out["values"]):
-        if a != b:
-            return {"kind": "value-differs", "text": out["str"], "point_seed": pt, "value": a, "value_of_reparsed": b,
-                    "reparsed": out["parse"][1]}
+        if not same_outcome(a, b):
+            return {"kind": "value-differs", "text": out["str"], "point_seed": pt, "value": a[:2],
+                    "value_of_reparsed": b[:2], "reparsed": out["parse"][1]}
     return None
 
 
